@@ -121,7 +121,26 @@ func main() {
 		if P.cg != nil {
 			R.Extra["callgraph_functions"] = P.NFuncs
 		}
-		if st := R.Finish(*verif, seed); st > status {
+		st := R.Finish(*verif, seed)
+		if *tier == "thorough" && os.Getenv("NFSVERIF_NESTED") == "" {
+			// test the checker both ways on every thorough run, then rewrite the evidence
+			rs, all := runVariants(id, *repo, *verif, R.FailingKeys())
+			R.Extra["selftest_variants"] = rs
+			R.Extra["selftest_summary"] = selftestSummary(rs)
+			fmt.Printf("%s selftest: %s\n", id, selftestSummary(rs))
+			if !all {
+				for _, v := range rs {
+					if !v.OK {
+						fmt.Printf("SELFTEST-UNEXPECTED %s variant=%s kind=%s expect=%s got=%q\n", id, v.Name, v.Kind, v.Expect, v.Reported)
+					}
+				}
+				if st == 0 {
+					st = 3 // the checker did not behave as documented: a failure of the check, not of the property
+				}
+			}
+			R.rewriteEvidence(*verif)
+		}
+		if st > status {
 			status = st
 		}
 	}
